@@ -211,7 +211,7 @@ def check_date_case(ctx, name, d, st, mode):
         r = dateparser.parse(s, **kw)
     except Exception as e:  # totality is C02's, but an escape here is also a wrong answer
         r = e
-    path = PathTap.accepted()
+    path = PathTap.accepted("absolute-time")
     ctx.ran()
     case = {"kind": "date", "rendering": name, "string": s, "d": iso(d), "settings": st, "mode": mode}
     ok = isinstance(r, datetime)
@@ -307,7 +307,7 @@ def check_epoch_case(ctx, n, suf, neg, zone_kind, zone, aware, local_tz=None):
         r = dateparser.parse(s, settings=st)
     except Exception as e:
         r = e
-    path = PathTap.accepted()
+    path = PathTap.accepted("negative-timestamp" if neg else "timestamp")
     ctx.ran()
     case = {"kind": "epoch", "string": s, "n": n, "suffix": suf, "neg": neg, "zone_kind": zone_kind,
             "zone": zone, "aware": aware, "local_tz": local_tz}
